@@ -48,6 +48,7 @@ type Q struct {
 // Case is a store and a list of queries.
 type Case struct {
 	Disk bool  `json:"disk"`
+	Age  int   `json:"age,omitempty"` // how many seconds in the past the 6-second band lies (0 = 1000): also older than the configured retention (7200 s) and than the default one (30 days)
 	Msgs []Msg `json:"msgs"`
 	Qs   []Q   `json:"qs"`
 }
@@ -56,10 +57,10 @@ var lits = []string{"a", "b", "c"}
 
 func genCase(disk bool) func(t *rapid.T) Case {
 	return func(t *rapid.T) Case {
-		c := Case{Disk: disk}
+		c := Case{Disk: disk, Age: rapid.SampledFrom([]int{1000, 1000, 1000, 10000, 3000000}).Draw(t, "age")}
 		for i, n := 0, rapid.IntRange(0, 40).Draw(t, "nmsgs"); i < n; i++ {
 			m := Msg{C: rapid.SampledFrom([]int{0, 0, 0, 1, 1, 2}).Draw(t, "c"), T: rapid.IntRange(0, 5).Draw(t, "t"),
-				TTL:  rapid.SampledFrom([]uint32{1, 500, 3600, 3600, 100000, 100000, 4294967295}).Draw(t, "ttl"),
+				TTL:  rapid.SampledFrom([]uint32{1, 500, 3600, 3600, 100000, 100000, 4000000, 4000000, 4294967295}).Draw(t, "ttl"),
 				Size: rapid.SampledFrom([]int{0, 1, 10, 10, 100, 100, 20000, 30000, 60000}).Draw(t, "size")}
 			for j, d := 0, rapid.IntRange(1, 4).Draw(t, "depth"); j < d; j++ {
 				m.Levels = append(m.Levels, rapid.SampledFrom([]string{"a", "a", "b", "b", "c"}).Draw(t, "lv"))
@@ -154,7 +155,12 @@ func run(c Case) vkit.Result {
 	c0 := 0x10000000 + caseNo*8
 	contracts := []uint32{c0, c0 ^ ha ^ hb, c0 + 3}
 	now := time.Now().Unix()
-	base := now - 1000
+	if c.Age == 0 {
+		c.Age = 1000
+	}
+	// every ttl of the generator is either shorter than the band's age by >= 500 s (expired) or longer by >= 1 h (live):
+	// ages 1000 / 10000 / 3000000 against ttls 1, 500, 3600, 7200 (retained), 100000, 4000000
+	base := now - int64(c.Age)
 	var recs []rec
 	for i, m := range c.Msgs {
 		r := rec{contract: contracts[m.C], levels: m.Levels, channel: strings.Join(m.Levels, "/") + "/", time: base + int64(m.T), ttl: m.TTL, seq: i}
@@ -398,6 +404,9 @@ func run(c Case) vkit.Result {
 		r.Labels = append(r.Labels, l)
 	}
 	sort.Strings(r.Labels)
+	if c.Age > 7200 {
+		r.Labels = append(r.Labels, "band-older-than-retention")
+	}
 	if c.Disk {
 		r.Labels = append(r.Labels, "provider-ssd")
 	} else {
